@@ -76,11 +76,13 @@ def addressing(rnd, pgn):
     return rnd.randrange(8), rnd.choice([0, 1, 7, 200, 255]), dst
 
 
-def suite_messages(ctx):
+def suite_messages(ctx, name="encoder-messages", fmts=None, types=None):
     harness.load_repo()
     per_def = 1 if ctx["tier"] == "quick" else 4
     msgs, rnd = decoded_messages(ctx, per_def, 71)
-    s = common.Suite("encoder-messages", "real NMEA2000Encoder._encode / encode_ebyte / encode_usb / encode_yacht_devices / encode_actisense on whole messages (every encodable definition, the "
+    if types:
+        msgs = [x for x in msgs if x[1]["Type"] in types]
+    s = common.Suite(name, "real NMEA2000Encoder._encode / encode_ebyte / encode_usb / encode_yacht_devices / encode_actisense on whole messages (every encodable definition, the "
                      "messages its decoder returns; random priority/source/destination, preset sequence counter) vs Enc.encode* on the T1 tables: returned packets and the counter afterwards; "
                      "plus rejected inputs: priority 8, source 256, PGN 2^18, unknown PGN, wrong id for a multi-definition PGN, a removed field, non-canonical destination for broadcast PGNs")
     for sfx, p, m in msgs:
@@ -116,7 +118,7 @@ def suite_messages(ctx):
                         sp = pgncorr.field_spec(mm) or "-"
                 else:
                     setattr(mm, a, v)
-            for fmt in ("frames",) + FORMATS:
+            for fmt in (fmts or ("frames",) + FORMATS):
                 got, _ = real_encode(fmt, seq, mm)
                 s.add(f"encm {fmt} {seq} {mm.PGN} {harness.hx(mm.id.encode())} {mm.priority} {mm.source} {mm.destination} {sp}", got, f"{fmt}-{lab}-{got.split()[0]}")
     return [s.run()]
@@ -269,25 +271,84 @@ def trip_check(p, m, fmt, seq):
     return None
 
 
-def monitor_trips(ctx, per_def=None):
+def monitor_trips(ctx, per_def=None, prop="C06", types=None, fmts=None):
     """C06 itself on the real code, message level: every encodable definition x four formats"""
     harness.load_repo()
     per_def = per_def or (2 if ctx["tier"] == "quick" else 8)
     msgs, rnd = decoded_messages(ctx, per_def, 72)
+    if types:
+        msgs = [x for x in msgs if x[1]["Type"] in types]
     hits, n = [], 0
     for sfx, p, m in msgs:
         mm = copy.deepcopy(m)
         mm.priority, mm.source, mm.destination = addressing(rnd, p["PGN"])
         seq = rnd.randrange(8)
-        for fmt in FORMATS:
+        for fmt in (fmts or FORMATS):
             n += 1
             why = trip_check(p, mm, fmt, seq)
             if why:
-                hits.append({"key": f"C06/message-trip/{fmt}/{sfx}", "what": f"{sfx} through {fmt}: {why}",
+                hits.append({"key": f"{prop}/message-trip/{fmt}/{sfx}", "what": f"{sfx} through {fmt}: {why}",
                              "replay": {"kind": "message-trip", "def": sfx, "format": fmt, "seq": seq, "prio": mm.priority, "src": mm.source, "dst": mm.destination,
                                         "fields": pgncorr.field_spec(mm), "why": why}})
                 break
     return hits, n
+
+
+def monitor_rotation(ctx, prop="C06"):
+    """one long-lived encoder feeding one long-lived decoder per format: rotations of 8, 16 and 5 fast-packet definitions, three rounds each
+    (with 8 in rotation every stream sees the same sequence counter in consecutive messages); every message must come back"""
+    harness.load_repo()
+    from nmea2000.encoder import NMEA2000Encoder
+    from nmea2000.decoder import NMEA2000Decoder
+    msgs, rnd = decoded_messages(ctx, 1, 75)
+    fast = [(sfx, p, m) for sfx, p, m in msgs if p["Type"] == "Fast" and len(set(x[1]["PGN"] for x in msgs if x[1]["PGN"] == p["PGN"])) >= 1]
+    seen, uniq = set(), []
+    for sfx, p, m in fast:
+        if p["PGN"] in seen:
+            continue
+        try:
+            NMEA2000Encoder()._call_encode_function(m)       # only messages the encoder accepts: every one advances the counter
+        except Exception:
+            continue
+        seen.add(p["PGN"])
+        uniq.append((sfx, p, m))
+    hits, n = [], 0
+    for fmt in ("ebyte", "usb", "yd"):
+        for size in (8, 16, 5):
+            ring = rnd.sample(uniq, size)
+            e, d = NMEA2000Encoder(), NMEA2000Decoder()
+            for rnd_no in range(3):
+                for sfx, p, m in ring:
+                    mm = copy.deepcopy(m)
+                    mm.priority, mm.source, mm.destination = 3, 7, 255
+                    n += 1
+                    try:
+                        pk = {"ebyte": e.encode_ebyte, "usb": e.encode_usb, "yd": e.encode_yacht_devices}[fmt](mm)
+                    except Exception:
+                        continue
+                    outs = []
+                    for q in pk:
+                        try:
+                            outs.append({"ebyte": d.decode_tcp, "usb": d.decode_usb}[fmt](q) if fmt != "yd" else d.decode_yacht_devices_string("01:02:03.004 R " + q.decode().strip()))
+                        except Exception as ex:
+                            outs.append(("raised", type(ex).__name__))
+                    r = outs[-1] if outs else None
+                    ok = (all(o is None for o in outs[:-1]) and r is not None and not isinstance(r, tuple) and r.id == mm.id
+                          and all(_close(a.value, b.value, p["Fields"][i] if i < len(p["Fields"]) else {}) for i, (a, b) in enumerate(zip(mm.fields, r.fields))))
+                    if not ok:
+                        hits.append({"key": f"{prop}/rotation/{fmt}/{size}", "what": f"{fmt}: rotation of {size} fast-packet PGNs on one encoder and one decoder, round {rnd_no + 1}: {sfx} did not come back "
+                                     f"(per-packet results: {[('msg ' + o.id) if hasattr(o, 'id') else o for o in outs][:8]})",
+                                     "replay": {"kind": "rotation", "format": fmt, "size": size, "round": rnd_no + 1, "def": sfx, "ring": [x[0] for x in ring]}})
+                        break
+                else:
+                    continue
+                break
+    return hits, n
+
+
+def replay_rotation(rp):
+    hits, n = monitor_rotation({"repo": common.REPO, "seed": rp.get("seed", 0), "tier": rp.get("tier", "quick")}, rp.get("property", "C06"))
+    return not hits, (hits[0]["what"] if hits else f"{n} messages in rotation all came back")
 
 
 def replay_trip(rp):
